@@ -116,6 +116,17 @@ def run(ctx):
         c = rng.random()
         n = rng.randint(-10, 10) if c < 0.3 else rng.randint(-2**53, 2**53) if c < 0.6 else rng.randint(-2**63, 2**63 - 1)
         reqs.append({"op": "f64", "fn": fn, "x": f2b(x), "y": f2b(y), "n": n})
+    # fixed corpus of scalar arguments at which shortcuts and "guards" differ from the standard library
+    for fn, xs_, ys_ in (("powf", [0.0, -0.0, 1.0, -1.0, 2.0, 4.0, 0.25, 1e-300, 1e300, float("inf"), float("-inf")],
+                          [0.5, -0.5, 2.0, -2.0, 3.0, 4.0, -4.0, 1.0, 0.0, 1.5, 0.25, 1 / 3, 1e-3]),
+                         ("exp", [-708.0, -708.3, -708.39, -708.4, -709.0, -710.0, -720.0, -740.0, -745.0, -745.13, -745.2, -746.0, 709.0, 709.78, 709.79, 710.0, -0.0], [0.0]),
+                         ("ln", [0.0, -0.0, 5e-324, 1e-320, 1.0, float("inf"), -1.0], [0.0]),
+                         ("sqrt", [0.0, -0.0, 5e-324, 4.0, -1.0, float("inf")], [0.0]),
+                         ("inv", [0.0, -0.0, 5e-324, 1e-320, 5.56e-309, 5.57e-309, 1e308, float("inf"), float("-inf")], [0.0]),
+                         ("abs", [0.0, -0.0, -5e-324, float("-inf"), float("nan")], [0.0])):
+        for x in xs_:
+            for y in ys_:
+                reqs.append({"op": "f64", "fn": fn, "x": f2b(x), "y": f2b(y), "n": 0})
     # constructors must reject input of the wrong length (a constructor that drops or invents elements cannot round-trip them)
     wl = []
     for D in range(1, 9):
